@@ -13,7 +13,11 @@ Inductive lop :=
 | LExtOpen (h code : Z) (lockafter : bool)
 | LScanFail (h code : Z) (lockafter : bool)    (* an open whose directory scan is made to fail *)
 | LCloseRace (h : Z) (closes uses : list Z) (lockafter : bool)
-| LDirChanged (h : Z).   (* a FAILED open left the directory different from what it was *)
+| LDirChanged (h : Z)    (* a FAILED open left the directory different from what it was *)
+| LOpenAny (h code : Z) (lockafter : bool).
+(* LOpenAny: an open with an arbitrary configuration (extreme thresholds, missing templates): it may be
+   refused -- for any reason -- but then it leaves the directory's ownership exactly as it was; if it
+   succeeds the directory was free and is now owned *)
 (* LCloseRace: several goroutines call Close on the same handle at once while others use it
    (codes: 0 ok, 3 "closed" error, 12 panic) *)
 
@@ -28,6 +32,7 @@ Definition plop : P lop :=
   else if t =? 7 then (h <- pz ;; c <- pz ;; l <- pbool ;; ret (LScanFail h c l))
   else if t =? 8 then (h <- pz ;; cs <- pzs ;; us <- pzs ;; l <- pbool ;; ret (LCloseRace h cs us l))
   else if t =? 9 then (h <- pz ;; ret (LDirChanged h))
+  else if t =? 10 then (h <- pz ;; c <- pz ;; l <- pbool ;; ret (LOpenAny h c l))
   else (fun _ => None).
 
 (** a complete open attempt of the model: try the lock, then scan (which succeeds) *)
@@ -50,6 +55,13 @@ Fixpoint lcheck (s : lstate) (i : Z) (ops : list lop) : list Z :=
           let '(s', c) := model_open s h in
           if (c =? code) && Bool.eqb (lock s') la then lcheck s' (i + 1) t
           else v_violation [i; c; if lock s' then 1 else 0]
+      | LOpenAny h code la =>
+          if code =? 0 then
+            let '(s', c) := model_open s h in
+            if (c =? 0) && Bool.eqb (lock s') la then lcheck s' (i + 1) t
+            else v_violation [i; c; if lock s' then 1 else 0]
+          else if Bool.eqb (lock s) la then lcheck s (i + 1) t
+          else v_violation [i; code; if lock s then 1 else 0]
       | LExtOpen h code la =>
           (* another process: it opens, and if that succeeds closes again before exiting *)
           let '(s1, c) := model_open s h in
